@@ -182,3 +182,55 @@ Example c11_cached_example :
     applicable (fun _ => false) rule env /\ rule_id rule = VStr "o1" /\ rule_effect rule = Some eff /\
     eff = "permit" /\ d_effect d = "deny" /\ d_allowed d = false /\ d_reason d = "obligation_failed".
 Proof. exact x_refusal_explained. Qed.
+
+(* ------------------------------------------------------------------ *)
+(* through a DecisionLogger as the logger_sink (C19 composed with the   *)
+(* theorems above; theories/AuditRedact.v, more in props/C19.v)         *)
+(* ------------------------------------------------------------------ *)
+(* audit_fields env d = the items of audit_payload env d; Redact.log c payload u size = one
+   DecisionLogger(c).log(payload) with draw u and serialized size `size`; LEmitted _ safe _ _ =
+   the record `safe` reached the log.  Imported here, after the statements above, so that
+   their short names (init, ...) keep their meaning. *)
+From Rbacx Require Import Redact RedactProofs AuditRedact.
+
+(* redaction, truncation and fail-closed replace "env" only: the record is the audit payload of
+   the same Decision (c11_audit_agrees survives the logger) *)
+Theorem c11_logged_record_is_audit_payload : forall c env d u size draws safe caller raised,
+  Redact.log c (audit_fields env d) u size = LEmitted draws safe caller raised ->
+  exists out, safe = audit_payload out d.
+Proof. exact logged_record_shape. Qed.
+Print Assumptions c11_logged_record_is_audit_payload.
+
+(* the RECORD explains itself: a record naming a rule names an applicable rule of the policy
+   with the recorded effect / flag / reason / obligations (c11_rule_id_truthful read off the record) *)
+Theorem c11_logged_rule_id_truthful :
+  forall rel strict kvs req resolved d s oblig env c u size draws safe caller raised,
+  tree_ok (VObj kvs) ->
+  guard_eval unit (relh_pure rel) oblig strict (VObj kvs) req resolved tt = (GDecision d, tt) ->
+  build_env strict req resolved = Some env ->
+  Redact.log c (audit_fields env d) u size = LEmitted draws safe caller raised ->
+  get_key "rule_id" safe = VStr s -> (has_key "policies" (VObj kvs) = true -> s <> "") ->
+  exists rule eff,
+    In rule (all_rules (VObj kvs)) /\ applicable rel rule env /\ rule_id rule = VStr s /\
+    rule_effect rule = Some eff /\
+    ((eff = "deny" /\ get_key "decision" safe = VStr "deny" /\ get_key "allowed" safe = VBool false /\
+      get_key "reason" safe = VStr "explicit_deny") \/
+     (eff = "permit" /\ get_key "obligations" safe = VList (rule_obls rule) /\
+      ((get_key "decision" safe = VStr "permit" /\ get_key "allowed" safe = VBool true /\
+        get_key "reason" safe = VStr "matched") \/
+       (get_key "decision" safe = VStr "deny" /\ get_key "allowed" safe = VBool false /\
+        get_key "reason" safe = VStr "obligation_failed")))).
+Proof. exact logged_rule_id_truthful. Qed.
+Print Assumptions c11_logged_rule_id_truthful.
+
+Theorem c11_logged_no_rule_reason :
+  forall rel strict kvs req resolved d oblig env c u size draws safe caller raised,
+  guard_eval unit (relh_pure rel) oblig strict (VObj kvs) req resolved tt = (GDecision d, tt) ->
+  build_env strict req resolved = Some env ->
+  Redact.log c (audit_fields env d) u size = LEmitted draws safe caller raised ->
+  get_key "rule_id" safe = VNull ->
+  exists reason, get_key "reason" safe = VStr reason /\
+                 exhibited rel env (all_rules (VObj kvs)) reason /\
+                 get_key "allowed" safe = VBool false /\ get_key "decision" safe = VStr "deny".
+Proof. exact logged_no_rule_reason. Qed.
+Print Assumptions c11_logged_no_rule_reason.
